@@ -36,7 +36,7 @@ ERRNOS = ["EACCES", "EPERM", "EROFS", "ENOSPC", "EIO", "ENAMETOOLONG", "EEXIST",
 
 
 def examples(tier):
-    return 260 if tier == "quick" else 4000
+    return 208 if tier == "quick" else 4000
 
 
 @st.composite
